@@ -16,6 +16,8 @@ import z3
 from .parser import MirUnsupported, Place, Operand, Rvalue, split_top
 
 sys.setrecursionlimit(20000)
+import os as _os
+_QLOG = bool(_os.environ.get("VERIF_QLOG"))
 
 INT_TYPES = {
     "i8": (8, True), "i16": (16, True), "i32": (32, True), "i64": (64, True), "i128": (128, True), "isize": (64, True),
@@ -202,6 +204,7 @@ class State:
         self.visits = {}
         self.nframes = 0
         self.assumed = []
+        self.aux = {}   # per-path memo of models (lazily created witnesses ...), shallow-copied at forks
 
     def fork(self):
         s = State.__new__(State)
@@ -211,6 +214,7 @@ class State:
         s.visits = dict(self.visits)
         s.nframes = self.nframes
         s.assumed = list(self.assumed)
+        s.aux = dict(self.aux)
         return s
 
 
@@ -226,6 +230,25 @@ class Unwound(Exception):
     pass
 
 
+class SolverProxy:
+    """the incremental z3 solver of a run; `model()` can be overridden by the one-shot fallback of Exec.check (z3's incremental core
+    answers `unknown` on some mixed integer/real queries that its one-shot pipeline decides at once)"""
+
+    def __init__(self):
+        self._s = z3.Solver()
+        self._m = None
+
+    def __getattr__(self, name):
+        return getattr(self._s, name)
+
+    def check(self, *args):
+        self._m = None
+        return self._s.check(*args)
+
+    def model(self):
+        return self._m if self._m is not None else self._s.model()
+
+
 class Exec:
     def __init__(self, bodies, enums=None, models=None, unwind=8, timeout_ms=20000, crate_src=None):
         self.bodies = bodies
@@ -235,7 +258,7 @@ class Exec:
         self.enums.setdefault("Ordering", ORDERING)
         self.models = list(models or [])
         self.unwind = unwind
-        self.solver = z3.Solver()
+        self.solver = SolverProxy()
         self.solver.set("timeout", timeout_ms)
         self.timeout_ms = timeout_ms
         self.cvc5_decided = 0
@@ -336,6 +359,10 @@ class Exec:
                 ex = [b for b, ih in cands if _norm_ty(ih[3]) == full_trait]
                 if len(ex) == 1:
                     return ex[0]
+                if "<" not in full_trait:  # `<T as PartialOrd>::..` = the default type parameter: `impl PartialOrd<T> for T` (or no parameter at all)
+                    ex = [b for b, ih in cands if _norm_ty(ih[3]) in (full_trait, "%s<%s>" % (full_trait, full_self), "%s<Self>" % full_trait)]
+                    if len(ex) == 1:
+                        return ex[0]
                 raise MirUnsupported("ambiguous callee %s: %s" % (callee, [b.name for b, _ in cands]))
             return cands[0][0] if cands else None
         segs = _path_segments(c)
@@ -395,7 +422,14 @@ class Exec:
             raise MirUnsupported("wall-clock budget of this obligation exhausted after %d queries" % self.queries)
         self.queries += 1
         args = [extra] if extra is not None else []
-        r = self._guarded_check(args, self.timeout_ms)
+        fast = min(self.timeout_ms, 3000)
+        self.solver.set("timeout", fast)
+        r = self._guarded_check(args, fast)
+        self.solver.set("timeout", self.timeout_ms)
+        if r == z3.unknown:
+            r = self._oneshot(extra)
+        if r == z3.unknown and fast < self.timeout_ms:
+            r = self._guarded_check(args, self.timeout_ms)
         if r == z3.unknown:
             # z3's arithmetic heuristics are seed-sensitive on mod/div-heavy queries: retry, then ask cvc5 for `unsat`
             for seed in (7, 23):
@@ -412,7 +446,54 @@ class Exec:
         self.solver_time += time.time() - t
         if r == z3.unknown:
             self.unknowns += 1
+        if _QLOG and time.time() - t > 3:
+            try:
+                s2 = z3.Solver()
+                for a_ in self.solver.assertions():
+                    s2.add(a_)
+                if extra is not None:
+                    s2.add(extra)
+                with open("/tmp/qlog_%d_%d.smt2" % (_os.getpid(), self.queries), "w") as fh_:
+                    fh_.write(s2.to_smt2())
+            except Exception:
+                pass
+            sys.stderr.write("[qlog] %.1fs %s cvc5=%d extra=%s\n" % (time.time() - t, r, self.cvc5_decided, str(extra)[:600].replace("\n", " ")))
         return r
+
+    def _oneshot(self, extra):
+        """the same query in a fresh, non-incremental solver (different preprocessing); a `sat` model is kept for model()"""
+        import threading
+        try:
+            s2 = z3.Solver()
+            s2.set("timeout", self.timeout_ms)
+            for a in self.solver.assertions():
+                s2.add(a)
+            if extra is not None:
+                s2.add(extra)
+            timer = threading.Timer(self.timeout_ms / 1000.0 * 1.5 + 2, s2.ctx.interrupt)
+            timer.start()
+            try:
+                r = s2.check()
+            finally:
+                timer.cancel()
+            if r == z3.sat:
+                self.solver._m = s2.model()
+            if r != z3.unknown:
+                self.oneshot_decided = getattr(self, "oneshot_decided", 0) + 1
+            return r
+        except z3.Z3Exception:
+            return z3.unknown
+
+    def check_once(self, extra, ms):
+        """one solver call with its own time limit, no retries (witness selection, never a verdict)"""
+        t = time.time()
+        self.queries += 1
+        self.solver.set("timeout", ms)
+        try:
+            return self._guarded_check([extra] if extra is not None else [], ms)
+        finally:
+            self.solver.set("timeout", self.timeout_ms)
+            self.solver_time += time.time() - t
 
     def _guarded_check(self, args, ms):
         """solver.check with a watchdog: z3 does not always honour its own timeout (bv2int / nonlinear cores)"""
